@@ -55,8 +55,8 @@ def scan_inv():
     return [
         IN("s"),
         "g_off <= %s && %s <= g_len" % (S_OFF, S_OFF),
-        "(gp_line[g_off]=='+' || gp_line[g_off]=='-') ==> %s >= g_off + 1" % S_OFF,
-        "(%s > g_off) ==> %s" % (S_OFF, TOK("s[-1]")),
+        "(v_c0=='+' || v_c0=='-') ==> %s >= g_off + 1" % S_OFF,
+        "(%s > g_off) ==> s[-1] > ' '" % S_OFF,          # the last token character is no white space (one dereference only)
         "(g_off + g_k < %s) ==> %s" % (S_OFF, TOK("v_k")),
         "(!has_digits && g_off + g_k < %s) ==> !%s" % (S_OFF, DIG("v_k")),
     ]
